@@ -336,3 +336,16 @@ func (e *Engine) sentinelParam(fn *ssa.Function, idx int) bool {
 	}
 	return e.sentParamSet[fmt.Sprintf("%s#%d", funcKey(fn), idx)]
 }
+
+
+// nilableParam: syntax-node pointer parameters for which some call site could not prove "non-nil" on the unchanged tree
+// (ledger/C01.nilable-params): the function is verified without that assumption, and no call site is asked for it.
+func (e *Engine) nilableParam(fn *ssa.Function, idx int) bool {
+	if e.nilParamSet == nil {
+		e.nilParamSet = map[string]bool{}
+		for k := range loadLedger("C01", "nilable-params") {
+			e.nilParamSet[k] = true
+		}
+	}
+	return e.nilParamSet[fmt.Sprintf("%s#%d", funcKey(fn), idx)]
+}
